@@ -167,7 +167,7 @@ def run(tier, seed):
 
     def add_dm(op, a, b, want, src, dense, sh=None):
         """integer pair (a, b) with demanded result `want` on every function whose parameter types hold a and b"""
-        desc0 = {"part": "divmod", "kind": "int", "op": op, "shadow_dev": "", "b_sign": "neg" if b < 0 else "pos", "a_sign": "neg" if a < 0 else "pos"}
+        desc0 = {"part": "divmod", "kind": "int", "op": op, "model_flags": "", "b_sign": "neg" if b < 0 else "pos", "a_sign": "neg" if a < 0 else "pos"}
         args = [calls.ienc(a), calls.ienc(b)]
         first = True
         for t in INTS:
@@ -225,7 +225,7 @@ def run(tier, seed):
                 sh = r["sh"][bs]
                 dev = sh != want
                 n_dev_cells += dev
-                desc = {"part": "divmod", "kind": "double", "op": op, "shadow_dev": "cdiv_double_dev" if dev else ""}
+                desc = {"part": "divmod", "kind": "double", "op": op, "model_flags": "cdiv_double_dev" if dev else ""}
                 for v in variants:
                     tb.add("%s%s_double" % (op, v), [calls.fenc(fa), calls.fenc(fb_)], dict(desc, style=v or "annot"), ("f", want / 4.0),
                            ("f", want / 4.0) if v in ("", "d") else SKIP, "tlc-row", {"shadow_model": ("f", sh / 4.0)})
@@ -249,7 +249,7 @@ def run(tier, seed):
                 if not lo <= want <= hi:
                     stats["dm_nodemand_result_range"] += 1
                     continue
-                desc = {"part": "divmod", "kind": "int", "op": op, "shadow_dev": "", "type": t, "style": "annot", "b_sign": "neg" if y < 0 else "pos",
+                desc = {"part": "divmod", "kind": "int", "op": op, "model_flags": "", "type": t, "style": "annot", "b_sign": "neg" if y < 0 else "pos",
                         "a_sign": "neg" if x < 0 else "pos"}
                 tb.add("%s_%s" % (op, t), [calls.ienc(x), calls.ienc(y)], desc, want, want, "python-oracle")
     n_dm = len(tb.calls)
@@ -271,7 +271,7 @@ def run(tier, seed):
         if Tt in lp.PY_T:
             fn = "pycast_%s%s" % (Tt, "_tc" if r["tc"] else "")
             desc = {"part": "cast", "target": Tt, "source": "py:" + st, "typecheck": r["tc"], "matching_type": Tt in ("object", st),
-                    "shadow_dev": "cast_typecheck_ignored" if (d["st"] == "exc" and sh["k"] == "conv") else ""}
+                    "model_flags": "cast_typecheck_ignored" if (d["st"] == "exc" and sh["k"] == "conv") else ""}
             if d["st"] == "nodemand":
                 stats["cast_nodemand_" + d["why"]] += 1
                 continue
@@ -295,7 +295,7 @@ def run(tier, seed):
             continue
         arg = arg_of(st, v, True)
         desc = {"part": "cast", "target": Tt, "target_kind": lp.kind(Tt), "source": r["form"] + ":" + st, "source_kind": sk,
-                "shadow_dev": "cast_int_from_bool" if (sh != d and lp.kind(Tt) == "i" and sk == "b") else ""}
+                "model_flags": "cast_int_from_bool" if (sh != d and lp.kind(Tt) == "i" and sk == "b") else ""}
         fns = ["cast_%s_from_%s" % (Tt, st)] if r["form"] == "c" else ["cast_%s_from_py" % Tt, "decl_%s_from_py" % Tt]
         for fn in fns:
             tb.add(fn, [arg], dict(desc, via="declare" if fn.startswith("decl") else "cast"), cval(d), cval(d), "tlc-cell", {"shadow_model": cval(sh)})
@@ -311,7 +311,7 @@ def run(tier, seed):
             vals = sorted({v for v in (lo, lo + 1, -1, 0, 1, hi - 1, hi, slo, shi, (1 << 31) - 1, 1 << 31, -(1 << 31), (1 << 32) - 1, 1 << 53,
                                        (1 << 63) - 1) if lo <= v <= hi and slo <= v <= shi})
             for v in vals:
-                desc = {"part": "cast", "target": Tt, "target_kind": "i", "source": "c:" + S, "source_kind": "i", "via": "cast", "shadow_dev": ""}
+                desc = {"part": "cast", "target": Tt, "target_kind": "i", "source": "c:" + S, "source_kind": "i", "via": "cast", "model_flags": ""}
                 tb.add("cast_%s_from_%s" % (Tt, S), [calls.ienc(v)], desc, v, v, "python-oracle")
     n_tab = len(tb.calls)
 
@@ -339,7 +339,7 @@ def run(tier, seed):
         n = 0
         for entry, via in m["entries"][p["pid"]]:
             desc = {"part": "prog", "kind": p["kind"], "mkind": p["mkind"] if p["kind"] == "cmeth" else "", "via": via,
-                    "shadow_dev": "+".join(sorted(flags)), "expected": out["st"], "helper": p["hashelper"]}
+                    "model_flags": "+".join(sorted(flags)), "expected": out["st"], "helper": p["hashelper"]}
             pb[m["name"]].add(entry, [arg_of(p["types"]["a"], a, tlc), arg_of(p["types"]["b"], b, tlc)], desc, exp,
                               exp if via != "wrapper" or p["kind"] != "ccall" else SKIP, src,
                               {"pid": p["pid"], "a": a, "b": b, "lstyle": p["lstyle"], "pstyle": p["pstyle"]}, risky=True)
